@@ -371,3 +371,23 @@ func init() {
 			Old: "if !mo.Flags.Get(jsonflags.Deterministic) || len(obj) <= 1 {", New: "if !mo.Flags.Get(jsonflags.Deterministic) || !mo.Flags.Get(jsonflags.AllowDuplicateNames) || len(obj) <= 1 {", Rule: "DET-1"},
 	)
 }
+
+func init() {
+	addMutants(
+		// ---- C09: V1
+		Mutant{ID: "v11-marshal-without-v1-defaults", Props: []string{"C09"}, File: "v1/encode.go", Func: "Marshal",
+			Old: "return jsonv2.Marshal(v, DefaultOptionsV1())", New: "return jsonv2.Marshal(v, jsonv2.Deterministic(true))", Rule: "V1-1"},
+		Mutant{ID: "v11-usenumber-drops-defaults", Props: []string{"C09"}, File: "v1/stream.go", Func: "Decoder.UseNumber",
+			Old: "dec.opts = jsonv2.JoinOptions(dec.opts, unmarshalAnyWithRawNumber(true))", New: "dec.opts = jsonv2.JoinOptions(unmarshalAnyWithRawNumber(true))", Rule: "V1-1"},
+		Mutant{ID: "v11-compact-rejects-duplicates", Props: []string{"C09"}, File: "v1/indent.go", Func: "Compact",
+			Old: "\t\tjsontext.AllowDuplicateNames(true),\n\t\tjsontext.AllowInvalidUTF8(true),\n\t\tjsontext.PreserveRawStrings(true))", New: "\t\tjsontext.AllowInvalidUTF8(true),\n\t\tjsontext.PreserveRawStrings(true))", Rule: "V1-1"},
+		Mutant{ID: "v11-valid-strict-utf8", Props: []string{"C09"}, File: "v1/scanner.go", Func: "checkValid",
+			Old: "jsonflags.ReportErrorsWithLegacySemantics | jsonflags.AllowDuplicateNames | jsonflags.AllowInvalidUTF8 | 1", New: "jsonflags.ReportErrorsWithLegacySemantics | jsonflags.AllowDuplicateNames | 1", Rule: "V1-1"},
+		Mutant{ID: "v12-bytearray-flag-never-read", Props: []string{"C09"}, File: "arshal_default.go", Func: "makeBytesArshaler",
+			Old: "\t\t\tcase mo.Flags.Get(jsonflags.FormatByteArrayAsArray) && va.Kind() == reflect.Array:\n\t\t\t\treturn marshalArray(enc, va, mo)\n", New: "", Rule: "V1-2"},
+		Mutant{ID: "v13-check-after-dispatch", Props: []string{"C09"}, File: "arshal.go", Func: "unmarshalDecode",
+			Old: "\tif uo.Flags.Get(jsonflags.ReportErrorsWithLegacySemantics) {\n\t\tif err := export.Decoder(in).CheckNextValue(last); err != nil {", New: "\tif uo.Flags.Get(jsonflags.ReportErrorsWithLegacySemantics) && uo.Unmarshalers == nil {\n\t\tif err := export.Decoder(in).CheckNextValue(last); err != nil {", Rule: "V1-3"},
+		Mutant{ID: "v14-token-keeps-hadEOF", Props: []string{"C09"}, File: "v1/stream.go", Func: "Decoder.Token",
+			Old: "\tdec.hadPeeked = false\n\tdec.hadEOF = false\n\tswitch k := tok.Kind(); k {", New: "\tdec.hadPeeked = false\n\tswitch k := tok.Kind(); k {", Rule: "V1-4"},
+	)
+}
